@@ -75,6 +75,8 @@ struct Sub {
   int max_size;                            // rapidcheck max_size
   bool nofork = false;                     // run the predicate in-process (cheap pure predicates)
   int timeout_s = 0;                       // wall-clock alarm of one case (0 = engine default); hitting it is INCONCLUSIVE, never a violation
+  double budget_share = 0;                 // thorough tier: fixed share of the process wall budget (0 = by case count among the others);
+                                           // such a sub-property is stopped between cases (its later cases are generated but not run)
 };
 
 struct Property {
